@@ -117,6 +117,7 @@ type RunLine struct {
 	Hooks     int               `json:"hooks"`
 	Faults    map[string]int    `json:"faults,omitempty"`
 	Probes    map[string]int    `json:"probes,omitempty"`
+	Known     map[string]int    `json:"known,omitempty"`
 	Violation string            `json:"violation,omitempty"`
 	Prop      string            `json:"prop,omitempty"`
 	Class     string            `json:"class,omitempty"`
@@ -156,7 +157,7 @@ func runWorker(bin, prop string, jobs []Job, procs int, sample int, timeout time
 	os.WriteFile(jf, buf.Bytes(), 0o644)
 	defer os.Remove(jf)
 	cmd := exec.Command(bin, "-test.run", "^TestWorker$", "-test.timeout", "0")
-	cmd.Env = append(os.Environ(), "DST_PROP="+prop, "DST_JOBS="+jf, "DST_PROCS="+strconv.Itoa(procs), "DST_SAMPLE="+strconv.Itoa(sample), "GOTRACEBACK=all", "GOGC=off")
+	cmd.Env = append(os.Environ(), "DST_PROP="+prop, "DST_JOBS="+jf, "DST_PROCS="+strconv.Itoa(procs), "DST_SAMPLE="+strconv.Itoa(sample), "GOTRACEBACK=all", "GOGC=off", "DST_KNOWN="+filepath.Join(verifDir, "known_findings.json"))
 	var stdout, stderr bytes.Buffer
 	cmd.Stdout = &stdout
 	cmd.Stderr = &stderr
@@ -539,13 +540,16 @@ func cmdRun(args []string) {
 		if lines[i].Budget != "" {
 			budgetRuns++
 		}
+		for k := range lines[i].Known {
+			knownSeen[k]++
+		}
 	}
 	minimised := 0
 	for _, key := range classOrder {
 		ls := byClass[key]
 		l := ls[0]
 		if f := matchFinding(findings, l); f != nil {
-			knownSeen[fmt.Sprintf("property=%s %s [class=%s %s]", f.Property, f.What, f.Class, sigKey(f.Signature))] += len(ls)
+			knownSeen[fmt.Sprintf("property=%s %s", f.Property, f.What)] += len(ls)
 			continue
 		}
 		// confirm: same seed/run in a fresh process must reproduce class, step and log hash
@@ -579,7 +583,7 @@ func cmdRun(args []string) {
 
 	var known []string
 	for k, n := range knownSeen {
-		known = append(known, fmt.Sprintf("KNOWN-FINDING: %s (%d runs)", k, n))
+		known = append(known, fmt.Sprintf("KNOWN-FINDING: %s (seen in %d runs)", k, n))
 	}
 	sort.Strings(known)
 	for _, k := range known {
